@@ -223,7 +223,8 @@ func c09Clique(p vbase.Params, r *vbase.Result, async bool) {
 				} else {
 					free = true
 				}
-				if busy == 0 && free {
+				// goroutines spawned by CollectVote that have not reached the signature check yet are only visible in the stack dump
+				if busy == 0 && free && vk.GoroutinesIn("votingmachine.(*VotingMachine).") == 0 {
 					stable++
 					runtime.Gosched()
 					time.Sleep(30 * time.Microsecond)
